@@ -67,9 +67,17 @@ class Proc:
         except Exception:
             self.p.kill()
 
+def _big_stack():
+    # the extracted model recurses once per list element (a 700 000-byte log is a 700 000-element list)
+    import resource
+    soft, hard = resource.getrlimit(resource.RLIMIT_STACK)
+    try: resource.setrlimit(resource.RLIMIT_STACK, (hard, hard))
+    except Exception: pass
+
 class Model(Proc):
     def __init__(self):
-        super().__init__([BIN_VMODEL])
+        self.argv = [BIN_VMODEL]
+        self.p = subprocess.Popen(self.argv, stdin=subprocess.PIPE, stdout=subprocess.PIPE, text=True, bufsize=1, preexec_fn=_big_stack)
     def call(self, name, *args):
         return dec(self.ask(name + " " + enc(list(args))))
 
